@@ -12,6 +12,7 @@ def fam (fid : Nat) (d : Nat) (p : List Rat) : Option (List Rat → Rat) :=
   | 1 => some (fun x => (x.take d).foldl (· + ·) 0)
   | 2 => some (fun x => (x.take d).foldl (· * ·) 1)
   | 5 => some (fun x => (x.take d).foldl (fun s v => s + v * v) 0 + 1)
+  | 6 => some (fun x => x.foldl (· + ·) 0)       -- sum over the WHOLE argument vector
   | _ => none
 
 /-- cube root by Newton from above, rounded to 2^-300 (driver only; validated by the correspondence) -/
